@@ -324,6 +324,12 @@ def build_kwargs(problem, cfg, trace, hooks=None, checkpoint=None, x0=None):
                                        np.array(lbv, copy=True), np.array(ubv, copy=True)))
             if "on_scaler" in hooks:
                 hooks["on_scaler"](len(trace.scaler_calls) - 1)
+            if cfg.get("scaler_probe") and "buf" in gbuf:
+                # a scaler that probes the curvature before it answers: the user's gradient code runs again (at another point) and
+                # overwrites its one preallocated array (cfg reuse_grad_buffer); not a request of the solver, hence not logged
+                olde_ = np.seterr(all="ignore")
+                gbuf["buf"][:] = np.asarray(P.g(np.array(x, dtype=float) + 0.1), dtype=gbuf["buf"].dtype) * sc
+                np.seterr(**olde_)
             if s == "packaged":
                 from lbfgsb import get_gradient_projection_unit_scaling as pk
 
